@@ -775,7 +775,7 @@ struct H {
         default: break;
         }
         vf::cover(label, vf::mix(vf::mix(cfgh, hb), argh), true);
-        if (vf::want_sample(label)) {
+        if ((N == 1 || (before.any() && !before.all())) && vf::want_sample(label)) {
             vf::sample(label, "%s: %s %s : %s -> %s, then every observer compared", subj, label, args, before.to_string().c_str(),
                 m.to_string().c_str());
         }
@@ -801,7 +801,7 @@ struct H {
         e            = make(v, route);
         m            = v;
         vf::cover(label, vf::mix(cfgh, std::hash<M>{}(v)), v.any());
-        if (vf::want_sample(label)) { vf::sample(label, "%s: %s value=%s, then every observer compared", subj, label, v.to_string().c_str()); }
+        if ((N == 1 || (v.any() && !v.all())) && vf::want_sample(label)) { vf::sample(label, "%s: %s value=%s, then every observer compared", subj, label, v.to_string().c_str()); }
         observe(e, m);
         if (end_step()) { resync(); }
     }
@@ -1371,7 +1371,7 @@ vf::Spec spec(vf::Tier t)
 {
     vf::Spec s;
     for (Cfg const& c : configs()) { s.n_enum += c.n_enum; }
-    s.n_random   = configs().size() * (t == vf::Tier::thorough ? 5000u : 150u);
+    s.n_random   = configs().size() * (t == vf::Tier::thorough ? 3000u : 150u);
     s.batch      = 16;
     s.timeout_s  = 300;
     s.exhaustive = true;
